@@ -190,6 +190,9 @@ impl<'p> Gen<'p> {
             return self.leaf(ty, fixed);
         }
         let d = depth - 1;
+        if self.p.chance(1, 12) {
+            if let Some(e) = self.order_probe(ty, d) { return e; }
+        }
         let roll = self.p.below(100);
         if ty == STy::Bool {
             return match roll {
@@ -235,6 +238,24 @@ impl<'p> Gen<'p> {
             76..=89 if self.can_call() => self.call_of(ty, d, fixed),
             _ => self.leaf(ty, fixed),
         }
+    }
+
+    /// `v op { v = e; e' }`: the left operand is a plain variable that the right
+    /// operand overwrites before producing its value, so the result depends on
+    /// the left operand being read first (evaluation order of operands).
+    fn order_probe(&mut self, ty: STy, d: u32) -> Option<E> {
+        let vars: Vec<VarInfo> = self.visible().into_iter()
+            .filter(|v| v.assignable && (v.ty.is_int() || v.ty.is_float()) && (ty == STy::Bool || v.ty == ty))
+            .collect();
+        if vars.is_empty() { return None; }
+        let v = self.p.pick(&vars).clone();
+        let op = if ty == STy::Bool { *self.p.pick(&CMP) } else { *self.p.pick(&ARITH[..3]) };
+        self.scopes.push(vec![]);
+        let newv = self.expr(v.ty, d.min(1), true);
+        let last = self.expr(v.ty, d.min(1), true);
+        self.scopes.pop();
+        let blk = Blk { stmts: vec![S::Do(E::Set(v.name.clone(), Box::new(newv)))], last: Some(Box::new(last)) };
+        Some(E::Bin(op, Box::new(E::Var(v.name, v.ty)), Box::new(E::Block(blk))))
     }
 
     fn call_of(&mut self, ty: STy, d: u32, fixed: bool) -> E {
